@@ -31,5 +31,6 @@ package blockproof
 // Parsing of block-proof bytes from outside: on success the reader is the reader of exactly those bytes (every field was
 // read once; a reader panic on damaged bytes becomes the error - bounded stand-in, /verif/bounded).
 //@ func ReadBlockProof
-//@   props C02 C12
+//@   props C02 C12 C20
 //@   ensures [parsed] result1 == nil ==> result0 != nil && result0 == protocol.BlockProofReader(blockProofBytes)
+//@   ensures [bytes-the-readers-accept-are-never-refused] result1 == nil
